@@ -387,7 +387,22 @@ class ChfObs:
         return {k: v + r.get(k, 0) for k, v in b.items()}
 
 
+def _conc_phase(ctx, res, pid, mode, replay_ops, nq, nt):
+    """batches of concurrent requests (conc stream, generator mode `mode`) judged by _conc_check for property pid"""
+    if replay_ops is not None:
+        ops = [o for o in replay_ops if o.startswith("conc ")]
+        if not ops:
+            return
+    else:
+        ops = core.harness_gen(ctx.harness, "conc", ctx.seed, n_for(ctx, nq, nt), ctx.tier, ("-mode", mode))
+    for gmp in (4, 16):
+        impl = core.harness_run(ctx.harness, "conc", ops, env_extra={"GOMAXPROCS": str(gmp)})
+        _conc_check(res, ops, impl, gmp, pid)
+
+
 def chf_run(ctx, res, n, replay_ops=None, gen_extra=()):
+    if replay_ops is not None:
+        replay_ops = [o for o in replay_ops if o.startswith("chf ")]
     r = ctx.stream("chf", n, ops=replay_ops, extra_gen=gen_extra)
     # correspondence on everything
     for i, (op, im, mo) in enumerate(zip(r.ops, r.impl, r.model)):
@@ -723,11 +738,14 @@ def explore_c12(ctx, res, replay_ops=None):
         res.traces_validated += 1
         res.sample({"op": op[:300], "impl": strip_annot(im)[:160]})
         prev_state = state
+    # a reference can also become stale while the request naming it waits behind the release of its session
+    _conc_phase(ctx, res, "C12", "stale", replay_ops, 30, 300)
     res.rule = ("chf histories in 'api' mode: 25% of updates/releases name an unknown, mistyped, foreign or stale (released) "
                 "reference or an unknown subscriber; recharges with well-formed, malformed and unknown path parameters; "
                 "oracle on the implementation's trace: status/Location/echo/timestamp per request, byte-identical state "
                 "dump across every 4xx, exactly one notification per accepted recharge; non-trivial = rejected request or "
-                "accepted recharge")
+                "accepted recharge; plus batches of 3-5 updates and the release of one session in flight together against a slow account "
+                "store: some serial order replayed through the Lean model must give every response (an update behind the release: 404) and the final state")
 
 
 import re  # noqa: E402
@@ -787,10 +805,14 @@ def explore_c10(ctx, res, replay_ops=None):
                     res.violation("oracle", "C10: update addressed to %s was not recorded in a record of that session" % sid, hist())
                 if kind == "release":
                     live.pop(sid, None)
+    # first contact: several creates for a SUPI the CHF has never seen, in flight together; every acknowledged reference
+    # must then designate its session (update 200, release 204)
+    _conc_phase(ctx, res, "C10", "newsupi", replay_ops, 40, 400)
     res.rule = ("chf histories in 'names' mode: SUPIs that are prefixes of one another (imsi-1, imsi-12, imsi-, imsi-1-), "
                 "consumer names ending in digits / empty / containing '-' (a1, a, '', 10, -1, smf-0), 2-4 sessions per subscriber, "
                 "interleaved updates and releases; oracle: every returned reference differs from all live ones, and usage sent "
-                "to a live reference lands in a record carrying that reference; non-trivial/distinct = returned references")
+                "to a live reference lands in a record carrying that reference; plus 4-8 creates of one never-seen SUPI in flight together, "
+                "every acknowledged reference then updated and released; non-trivial/distinct = returned references")
 
 
 PROPS["C10"] = dict(lean=["ChfVerif.Props.C10"], explore=explore_c10,
@@ -921,6 +943,9 @@ def explore_c02(ctx, res, replay_ops=None):
                 res.violation("oracle", "C02: the subscriber's records hold %d containers (%d distinct) for %d reported in accepted requests" % (rec, dis, sent),
                               rs.ops[start:i + 1] + ["# impl: " + im[:160] + "…"])
                 break
+    # first contact: creates for a never-seen SUPI in flight together - every acknowledged session must live in the one
+    # subscriber context that later requests find (its record is in that context's Records)
+    _conc_phase(ctx, res, "C02", "newsupi", replay_ops, 40, 400)
     res.rule = ("chf histories (1-2 subscribers, 1-2 concurrent sessions each, interleaved updates, releases; every container "
                 "carries a unique local sequence number as tracer): after every operation the containers found in the records "
                 "of each session (in Records order) must equal the containers reported for that session so far; plus "
@@ -1315,7 +1340,7 @@ def explore_c03(ctx, res, replay_ops=None):
                 if v.get("member") != "ok":
                     res.violation("oracle", "C03: a record payload of the written file is not the encoding of any record the subscriber context holds (%s)" % v.get("member"),
                                   replay + ["# verdict: " + verdict[i]])
-        elif kind in ("update", "fit", "release") and d.get("st") in ("200", "204"):
+        elif kind in ("update", "fit", "fiton", "release") and d.get("st") in ("200", "204"):
             res.violation("oracle", "C03: a successful %s wrote no CDR file" % kind, replay + ["# impl: " + im[:200]])
         prevs[sub] = sizes
     res.rule = ("offline charging sessions through the real router: one session growing by 40 (thorough 160) updates across the 127/255/65535 "
@@ -1474,8 +1499,8 @@ PROPS["C19"] = dict(lean=["ChfVerif.Props.C19"], explore=explore_c19, gen=[gen_t
 
 def explore_c11(ctx, res, replay_ops=None):
     n = n_for(ctx, 40, 400)
-    ops = replay_ops if replay_ops is not None else core.harness_gen(ctx.harness, "http", ctx.seed, n, ctx.tier, ())
-    impl = core.harness_run_parallel(ctx.harness, "http", ops, 14)
+    ops = [o for o in replay_ops if o.startswith("http ")] if replay_ops is not None else core.harness_gen(ctx.harness, "http", ctx.seed, n, ctx.tier, ())
+    impl = core.harness_run_parallel(ctx.harness, "http", ops, 14) if ops else []
     for op, im in zip(ops, impl):
         t = op.split(" ")
         kind = t[2] if len(t) > 2 else "?"
@@ -1510,17 +1535,46 @@ def explore_c11(ctx, res, replay_ops=None):
                           [op, "# impl: " + im])
         elif st[:1] not in ("2", "3", "4"):
             res.violation("oracle", "C11: unexpected status %s" % st, [op, "# impl: " + im])
-        if fu == "hang" or fu2 == "hang":
+        if kind.startswith("notify") and (st != "204" or fu != "200"):
+            res.violation("oracle", "C11: recharge notification to a consumer that %s: the recharge request was answered %s, the update of the same subscriber %s "
+                          "(deadlines 8 s / 4 s: the subscriber is blocked while the notification is outstanding)"
+                          % ("answers after 5 s" if kind == "notifyslow" else "sends an update before it answers", st, fu), [op, "# impl: " + im])
+        elif fu == "hang" or fu2 == "hang":
             res.violation("oracle", "C11: after the request a well-formed request for the same subscriber was not answered within 4 s (subscriber blocked)",
                           [op, "# impl: " + im])
         elif fu[:1] == "5" or fu2[:1] == "5":
             res.violation("oracle", "C11: the follow-up request was answered %s/%s" % (fu, fu2), [op, "# impl: " + im])
+    # --- long sessions: requests that cross the 65535-octet record limit (the record is split), among them one that is also the
+    #     session's first online report with a trigger (a partial record is cut by the same request)
+    if replay_ops is None or any(o.startswith("cdrsize ") for o in replay_ops):
+        sops = [o for o in replay_ops if o.startswith("cdrsize ")] if replay_ops is not None else \
+            core.harness_gen(ctx.harness, "cdrsize", ctx.seed, 0, ctx.tier, ("-mode", "online"))
+        simpl = core.harness_run(ctx.harness, "cdrsize", sops)
+        start = 0
+        for i, (op, im) in enumerate(zip(sops, simpl)):
+            t = op.split(" ")
+            if t[1] == "reset":
+                start = i
+            if t[1] in ("reset", "end"):
+                continue
+            res.evaluations += 1
+            res.dist["long-session:" + t[1]] += 1
+            st = (re.findall(r"^st=(\d+)", im) or ["?"])[0]
+            if im.split(" ")[0] in ("panic", "crash", "timeout", "bad-op"):
+                res.violation("oracle", "C11: %s while a long session was served" % im.split(" ")[0], sops[start:i + 1] + ["# impl: " + im[:200]])
+            elif st[:1] not in ("2", "4"):
+                res.violation("oracle", "C11: a well-formed request of a long session (record split at 65535 octets) was answered %s" % st,
+                              sops[start:i + 1] + ["# impl: " + im[:160]])
+            else:
+                res.traces_validated += 1
     res.rule = ("raw requests through the real router: a full ChargingDataRequest (all optional blocks present) with every single member "
                 "removed / null / {} / emptied, pairs of members removed (all pairs in thorough), random multi-member removals, 21 odd "
                 "subscriber identifiers, 25 MCC/MNC shapes, 13 bodies that are not a request object, 9 session references, 17 recharging "
                 "path parameters - as create, update and release; each followed by a well-formed online update and a release of the "
                 "same subscriber under a 4 s deadline. Oracle: status 2xx/3xx/4xx (never 5xx, never a hang), follow-ups answered in time "
-                "and not 5xx. non-trivial = request answered 4xx")
+                "and not 5xx; recharge notifications to a consumer that answers after 5 s / sends an update before it answers (the update must be "
+                "answered within 4 s); sessions grown across the 65535-octet record limit, the crossing update also being the first online "
+                "report with a trigger (never 5xx). non-trivial = request answered 4xx")
 
 
 PROPS["C11"] = dict(lean=["ChfVerif.Props.C11"], explore=explore_c11, gen=[gen_table("locksites", "LockSites.lean")],
@@ -1547,7 +1601,7 @@ def _conc_scenarios(ops, impl):
                 out.append(cur)
             cur = dict(prefix=["chf reset"], batch=[], go=None, fu=None, replay=[op], bad=None)
             continue
-        if cur is None:
+        if cur is None or t[1] in ("notify", "burst"):
             continue
         cur["replay"].append(op)
         if t[1] == "seq":
@@ -1565,8 +1619,113 @@ def _conc_scenarios(ops, impl):
     return out
 
 
-def explore_c09(ctx, res, replay_ops=None):
+def _conc_extra(res, ops, impl, pid):
+    """the conc stream's stand-alone operations: notifications to a consumer that is not passive; create bursts"""
+    for op, im in zip(ops, impl):
+        t = op.split(" ")
+        if t[1] == "notify":
+            res.evaluations += 1
+            res.dist["notify:" + t[2]] += 1
+            d = dict(x.split("=", 1) for x in im.split(" ") if "=" in x)
+            st, fu = d.get("st", "?"), d.get("fu", "?")
+            if st != "204" or fu != "200":
+                what = {"slow": "while the consumer had not yet answered a recharge notification, an update of the same subscriber sent 300 ms later",
+                        "reenter": "the update which the consumer sends before it answers a recharge notification"}[t[2]]
+                res.violation("oracle", "%s: %s was %s; the recharge request itself: %s (deadline 4 s / 8 s: the subscriber is blocked while the notification is outstanding)"
+                              % (pid, what, "not answered" if fu == "hang" else "answered " + fu, st), [op, "# impl: " + im])
+            else:
+                res.traces_validated += 1
+        elif t[1] == "burst":
+            res.evaluations += 1
+            res.dist["burst:" + t[2]] += 1
+            d = dict(x.split("=", 1) for x in im.split(" ") if "=" in x)
+            n = int(t[2]) * int(t[4])
+            if d.get("done") != "1":
+                res.violation("oracle", "%s: %d concurrent creates for new subscribers did not all return within 60 s (%s)" % (pid, n, im[:80]), [op, "# impl: " + im])
+                continue
+            cnt, lo, hi, dups = (d.get("lsn", "0:0:0:").split(":") + [""])[:4]
+            if d.get("created") != str(n) or (cnt, lo, hi, dups) != (str(n), "1", str(n), ""):
+                res.violation("oracle", "%s: %d creates sent by %s goroutines at once (acknowledged: %s) left %s records numbered %s..%s%s - any serial order numbers them 1..%d, each once"
+                              % (pid, n, t[2], d.get("created"), cnt, lo, hi, (", these numbers more than once: " + dups) if dups else "", n), [op, "# impl: " + im])
+            else:
+                res.traces_validated += 1
+
+
+def _conc_check(res, ops, impl, gmp, pid):
+    """every batch of the conc stream: all requests return, no 5xx, and some serial order of the batch, replayed through
+    the Lean charging model, reproduces every response and the quiescent state"""
     import itertools
+    for sc in _conc_scenarios(ops, impl):
+        res.evaluations += 1
+        k = len(sc["batch"])
+        res.dist["in-flight=%d" % k] += 1
+        res.dist["GOMAXPROCS=%d" % gmp] += 1
+        go = sc["go"]
+        if sc["bad"] or go in ("crash", "panic") or not go.startswith("done="):
+            res.violation("oracle", "%s: " % pid + "crash while requests were in flight (%s)" % (sc["bad"] or go)[:100], sc["replay"] + ["# impl: " + go[:300]])
+            continue
+        if go.startswith("done=0"):
+            res.violation("oracle", "%s: " % pid + "%d concurrent requests did not all return within 20 s (deadlock)" % k, sc["replay"] + ["# impl: " + go])
+            continue
+        gt = go.split(" ")
+        rs = gt[2][2:].split(";")
+        state = _mask_state(" ".join(gt[3:]))
+        res.traces_validated += 1
+        res.nontrivial.add("%d:%s" % (gmp, sc["replay"][-3] if len(sc["replay"]) > 2 else ""))
+        # follow-ups: every acknowledged session can still be updated and released
+        fu = sc["fu"] or "fu=-"
+        if fu != "fu=-":
+            for x in fu[3:].split(","):
+                if x != "200/204":
+                    res.violation("oracle", "%s: " % pid + "a session whose creation was acknowledged during the batch could not be updated and released afterwards (%s)" % x,
+                                  sc["replay"] + ["# impl: " + go[:400], "# follow-up: " + fu])
+        # the 5xx / panic case
+        if any(x.startswith("st=5") for x in rs):
+            res.violation("oracle", "%s: " % pid + "a concurrent request was answered 5xx", sc["replay"] + ["# impl: " + go[:400]])
+            continue
+        # some serial order of the batch must explain every response and the quiescent state (Lean model)
+        if k <= 5:
+            q, perms = [], list(itertools.permutations(range(k)))
+            for pm in perms:
+                q += sc["prefix"] + [sc["batch"][i] for i in pm]
+            out = core.driver_run(q)
+            L = len(sc["prefix"]) + k
+            found = None
+            for pi, pm in enumerate(perms):
+                lines = [strip_annot(x) for x in out[pi * L + len(sc["prefix"]):(pi + 1) * L]]
+                ok = True
+                for pos, i in enumerate(pm):
+                    mt = lines[pos].split(" ")
+                    if ",".join(mt[:6]) != rs[i]:
+                        ok = False
+                        break
+                if ok:
+                    mstate = _mask_state(" ".join(lines[-1].split(" ")[7:]))
+                    if mstate == state:
+                        found = pm
+                        break
+            if found is None:
+                res.disagreements += 1
+                res.violation("oracle", "%s: " % pid + "no serial order of the %d concurrent requests explains their responses and the state they left (Lean charging model, all %d orders tried)" % (k, len(perms)),
+                              sc["replay"] + ["# impl: " + go[:3000]])
+            else:
+                res.dist["serial-order-found"] += 1
+                if len(res.samples) < 5:
+                    res.sample({"in_flight": sc["batch"][:3], "responses": rs, "explained_by_order": list(found)})
+        else:
+            # large batches: quiescent-state invariants only (exactly-once recording)
+            seen = re.findall(r"~(\d+)/", state)
+            res.dist["large-batch-invariants"] += 1
+            if len(seen) != len(set(seen)):
+                res.violation("oracle", "%s: " % pid + "a usage container was recorded more than once", sc["replay"] + ["# impl: " + go[:3000]])
+            want = set(re.findall(r" (\d+)$", b)[0] for b in sc["batch"] if " update " in b or " release " in b)
+            okst = [b for b, x in zip(sc["batch"], rs) if x.startswith("st=200") or x.startswith("st=204")]
+            want = set(re.findall(r" (\d+)$", b)[0] for b in okst if " update " in b or " release " in b)
+            if not want <= set(seen):
+                res.violation("oracle", "%s: " % pid + "a usage container of an accepted concurrent request is missing from the records", sc["replay"] + ["# impl: " + go[:3000]])
+
+
+def explore_c09(ctx, res, replay_ops=None):
     n = n_for(ctx, 24, 200)
     ops = replay_ops if replay_ops is not None else core.harness_gen(ctx.harness, "conc", ctx.seed, n, ctx.tier, ())
     h = getattr(ctx, "harness_race", None) or ctx.harness
@@ -1583,74 +1742,8 @@ def explore_c09(ctx, res, replay_ops=None):
             i = se.find("fatal error")
             res.violation("oracle", "C09: the process crashed (GOMAXPROCS=%d): %s" % (gmp, se[i:i + 200].replace("\n", " ")),
                           ops[:400] + ["# " + l for l in se[max(0, i):i + 2000].split("\n")])
-        for sc in _conc_scenarios(ops, impl):
-            res.evaluations += 1
-            k = len(sc["batch"])
-            res.dist["in-flight=%d" % k] += 1
-            res.dist["GOMAXPROCS=%d" % gmp] += 1
-            go = sc["go"]
-            if sc["bad"] or go in ("crash", "panic") or not go.startswith("done="):
-                res.violation("oracle", "C09: crash while requests were in flight (%s)" % (sc["bad"] or go)[:100], sc["replay"] + ["# impl: " + go[:300]])
-                continue
-            if go.startswith("done=0"):
-                res.violation("oracle", "C09: %d concurrent requests did not all return within 20 s (deadlock)" % k, sc["replay"] + ["# impl: " + go])
-                continue
-            gt = go.split(" ")
-            rs = gt[2][2:].split(";")
-            state = _mask_state(" ".join(gt[3:]))
-            res.traces_validated += 1
-            res.nontrivial.add("%d:%s" % (gmp, sc["replay"][-3] if len(sc["replay"]) > 2 else ""))
-            # follow-ups: every acknowledged session can still be updated and released
-            fu = sc["fu"] or "fu=-"
-            if fu != "fu=-":
-                for x in fu[3:].split(","):
-                    if x != "200/204":
-                        res.violation("oracle", "C09: a session whose creation was acknowledged during the batch could not be updated and released afterwards (%s)" % x,
-                                      sc["replay"] + ["# impl: " + go[:400], "# follow-up: " + fu])
-            # the 5xx / panic case
-            if any(x.startswith("st=5") for x in rs):
-                res.violation("oracle", "C09: a concurrent request was answered 5xx", sc["replay"] + ["# impl: " + go[:400]])
-                continue
-            # some serial order of the batch must explain every response and the quiescent state (Lean model)
-            if k <= 5:
-                q, perms = [], list(itertools.permutations(range(k)))
-                for pm in perms:
-                    q += sc["prefix"] + [sc["batch"][i] for i in pm]
-                out = core.driver_run(q)
-                L = len(sc["prefix"]) + k
-                found = None
-                for pi, pm in enumerate(perms):
-                    lines = [strip_annot(x) for x in out[pi * L + len(sc["prefix"]):(pi + 1) * L]]
-                    ok = True
-                    for pos, i in enumerate(pm):
-                        mt = lines[pos].split(" ")
-                        if ",".join(mt[:6]) != rs[i]:
-                            ok = False
-                            break
-                    if ok:
-                        mstate = _mask_state(" ".join(lines[-1].split(" ")[7:]))
-                        if mstate == state:
-                            found = pm
-                            break
-                if found is None:
-                    res.disagreements += 1
-                    res.violation("oracle", "C09: no serial order of the %d concurrent requests explains their responses and the state they left (Lean charging model, all %d orders tried)" % (k, len(perms)),
-                                  sc["replay"] + ["# impl: " + go[:3000]])
-                else:
-                    res.dist["serial-order-found"] += 1
-                    if len(res.samples) < 5:
-                        res.sample({"in_flight": sc["batch"][:3], "responses": rs, "explained_by_order": list(found)})
-            else:
-                # large batches: quiescent-state invariants only (exactly-once recording)
-                seen = re.findall(r"~(\d+)/", state)
-                res.dist["large-batch-invariants"] += 1
-                if len(seen) != len(set(seen)):
-                    res.violation("oracle", "C09: a usage container was recorded more than once", sc["replay"] + ["# impl: " + go[:3000]])
-                want = set(re.findall(r" (\d+)$", b)[0] for b in sc["batch"] if " update " in b or " release " in b)
-                okst = [b for b, x in zip(sc["batch"], rs) if x.startswith("st=200") or x.startswith("st=204")]
-                want = set(re.findall(r" (\d+)$", b)[0] for b in okst if " update " in b or " release " in b)
-                if not want <= set(seen):
-                    res.violation("oracle", "C09: a usage container of an accepted concurrent request is missing from the records", sc["replay"] + ["# impl: " + go[:3000]])
+        _conc_extra(res, ops, impl, "C09")
+        _conc_check(res, ops, impl, gmp, "C09")
     res.rule = ("batches of 2-5 (thorough: up to 16) requests released together through the real router, built with the Go race detector, under "
                 "GOMAXPROCS %s: k updates of one session; updates of two sessions + a release + a recharge notification of one subscriber; k creates "
                 "of the same new SUPI; creates and updates of different subscribers. All must return within 20 s; no race report, no fatal error; "
